@@ -255,7 +255,8 @@ impl<'a, G: AffineRepr> Iterator for AggregatedGensIter<'a, G> {
     type Item = &'a G;
 
     fn next(&mut self) -> Option<Self::Item> {
-        if self.gen_idx >= self.n {
+        // Skip every exhausted party (with `n == 0` all of them are).
+        while self.gen_idx >= self.n && self.party_idx < self.m {
             self.gen_idx = 0;
             self.party_idx += 1;
         }
